@@ -203,7 +203,7 @@ def run_pair(case, counters, violations, sigs, samples):
 
 
 def plan(tier, seed):
-    return F.std_plan(tier, seed, 640, 20000)
+    return F.std_plan(tier, seed, 2560, 30000)
 
 
 def run_shard(desc):
